@@ -844,4 +844,293 @@ end
 theorem good_walk1 {Sh : Shape} {P : Prims} (hP : P.Good Sh) (d : Desc) : Good Sh (walk1 P d) :=
   good_walk1_of hP d (good_dispatch hP d)
 
+
+/-! ### the shapes -/
+
+/-- two-run simulation: bits related by `B` before are related by `B` after, everything else equal -/
+def simShape (B : Bits → Bits → Prop) : Shape where
+  Φ b0 b1 K := ∀ b', B b0 b' → ∃ b'', K b' (.ok b'') ∧ B b1 b''
+  id _ := fun b' h => ⟨b', rfl, h⟩
+  comp h1 h2 := fun b' h =>
+    let ⟨m, k1, hm⟩ := h1 b' h
+    let ⟨b'', k2, hb⟩ := h2 m hm
+    ⟨b'', ⟨.ok m, k1, k2⟩, hb⟩
+  mono hK h := fun b' hb =>
+    let ⟨b'', k, h'⟩ := h b' hb
+    ⟨b'', hK _ _ k, h'⟩
+
+/-- framing: `x` appended to the input is appended to what is left -/
+def frameShape (x : Bits) : Shape := simShape (fun b b' => b' = b ++ x)
+
+/-- locality + truncation: a consumed prefix `c`; any continuation after `c` is handed on; any proper
+    prefix of `c` is a `BitReadError` -/
+def truncShape : Shape where
+  Φ b0 b1 K := ∃ c, b0 = c ++ b1 ∧ (∀ y, K (c ++ y) (.ok y)) ∧ ∀ q, PPrefix q c → K q (.error .bitRead)
+  id b := ⟨[], rfl, fun _ => rfl, fun q hq => by have := hq.length_lt; simp at this⟩
+  comp := by
+    rintro b0 b1 b2 K1 K2 ⟨c1, e1, l1, t1⟩ ⟨c2, e2, l2, t2⟩
+    refine ⟨c1 ++ c2, by rw [e1, e2, List.append_assoc], fun y => ?_, fun q hq => ?_⟩
+    · exact ⟨.ok (c2 ++ y), by rw [List.append_assoc]; exact l1 _, l2 y⟩
+    · rcases hq.append_cases with hq1 | ⟨q2, rfl, hq2⟩
+      · exact ⟨.error .bitRead, t1 q hq1, rfl⟩
+      · exact ⟨.ok q2, l1 q2, t2 q2 hq2⟩
+  mono := by
+    rintro b0 b1 K K' hK ⟨c, e, l, t⟩
+    exact ⟨c, e, fun y => hK _ _ (l y), fun q hq => hK _ _ (t q hq)⟩
+
+/-- the writer side (encoder: `bits` = what was written, most recent first): a run only conses a
+    block `w` in front of whatever was there -/
+def writerShape : Shape where
+  Φ b0 b1 K := ∃ w, b1 = w ++ b0 ∧ ∀ b, K b (.ok (w ++ b))
+  id b := ⟨[], rfl, fun _ => rfl⟩
+  comp := by
+    rintro b0 b1 b2 K1 K2 ⟨w1, e1, l1⟩ ⟨w2, e2, l2⟩
+    refine ⟨w2 ++ w1, by rw [e2, e1, List.append_assoc], fun b => ?_⟩
+    exact ⟨.ok (w1 ++ b), l1 b, by rw [List.append_assoc]; exact l2 _⟩
+  mono := by
+    rintro b0 b1 K K' hK ⟨w, e, l⟩
+    exact ⟨w, e, fun b => hK _ _ (l b)⟩
+
+/-- `truncShape` is the strongest reader-side shape: it implies framing -/
+theorem Good.frame_of_trunc {f : St → CM St} (h : Good truncShape f) (x : Bits) : Good (frameShape x) f := by
+  intro s s' e b' hb'
+  obtain ⟨c, e1, l, _⟩ := h s s' e
+  subst hb'
+  refine ⟨s'.bits ++ x, ?_, rfl⟩
+  have := l (s'.bits ++ x)
+  rw [e1, List.append_assoc]; exact this
+
+theorem GoodV.frame_of_trunc {α : Type} {g : St → CM α} (h : GoodV truncShape g) (x : Bits) :
+    GoodV (frameShape x) g := by
+  intro s a e b' hb'
+  obtain ⟨c, e1, l, _⟩ := h s a e
+  subst hb'
+  have hc : c = [] := by
+    have := congrArg List.length e1
+    simp only [List.length_append] at this
+    exact List.eq_nil_of_length_eq_zero (by omega)
+  subst hc
+  exact ⟨s.bits ++ x, by simpa using l (s.bits ++ x), rfl⟩
+
+theorem Prims.Good.frame_of_trunc {P : Prims} (h : P.Good truncShape) (x : Bits) : P.Good (frameShape x) where
+  numeric dd a b c := (h.numeric dd a b c).frame_of_trunc x
+  string dd n := (h.string dd n).frame_of_trunc x
+  codeflag dd n := (h.codeflag dd n).frame_of_trunc x
+  newRefval e n := (h.newRefval e n).frame_of_trunc x
+  constant dd v := (h.constant dd v).frame_of_trunc x
+  factorValue := h.factorValue.frame_of_trunc x
+  lastValues n := (h.lastValues n).frame_of_trunc x
+
+/-! ### the frame property, literally -/
+
+/-- every primitive commutes with appending to the unread bits (on success); the two
+    value-returning primitives do not look at the bits -/
+structure Prims.Frame (P : Prims) : Prop where
+  numeric : ∀ dd a b c s s' x, P.numeric dd a b c s = .ok s' → P.numeric dd a b c (s.app x) = .ok (s'.app x)
+  string : ∀ dd n s s' x, P.string dd n s = .ok s' → P.string dd n (s.app x) = .ok (s'.app x)
+  codeflag : ∀ dd n s s' x, P.codeflag dd n s = .ok s' → P.codeflag dd n (s.app x) = .ok (s'.app x)
+  newRefval : ∀ e n s s' x, P.newRefval e n s = .ok s' → P.newRefval e n (s.app x) = .ok (s'.app x)
+  constant : ∀ dd v s s' x, P.constant dd v s = .ok s' → P.constant dd v (s.app x) = .ok (s'.app x)
+  factorValue : ∀ s x, P.factorValue (s.app x) = P.factorValue s
+  lastValues : ∀ n s x, P.lastValues n (s.app x) = P.lastValues n s
+
+theorem good_frame_iff {f : St → CM St} {x : Bits} :
+    Good (frameShape x) f ↔ ∀ s s', f s = .ok s' → f (s.app x) = .ok (s'.app x) := by
+  constructor
+  · intro h s s' e
+    obtain ⟨b'', k, rfl⟩ := h s s' e (s.bits ++ x) rfl
+    exact k
+  · intro h s s' e b' hb
+    subst hb
+    exact ⟨s'.bits ++ x, h s s' e, rfl⟩
+
+theorem goodV_frame_of {α : Type} {g : St → CM α} {x : Bits} (h : ∀ s, g (s.app x) = g s) :
+    GoodV (frameShape x) g := by
+  intro s a e b' hb
+  subst hb
+  exact ⟨s.bits ++ x, ⟨rfl, by rw [← e]; exact h s⟩, rfl⟩
+
+theorem Prims.Frame.good {P : Prims} (h : P.Frame) (x : Bits) : P.Good (frameShape x) where
+  numeric dd a b c := good_frame_iff.mpr fun s s' => h.numeric dd a b c s s' x
+  string dd n := good_frame_iff.mpr fun s s' => h.string dd n s s' x
+  codeflag dd n := good_frame_iff.mpr fun s s' => h.codeflag dd n s s' x
+  newRefval e n := good_frame_iff.mpr fun s s' => h.newRefval e n s s' x
+  constant dd v := good_frame_iff.mpr fun s s' => h.constant dd v s s' x
+  factorValue := goodV_frame_of fun s => h.factorValue s x
+  lastValues n := goodV_frame_of fun s => h.lastValues n s x
+
+/-- THE WALK FRAME LEMMA, generic in the primitives -/
+theorem walkList_frame {P : Prims} (hP : P.Frame) (t : List Desc) (s s' : St) (x : Bits)
+    (h : walkList P t s = .ok s') : walkList P t (s.app x) = .ok (s'.app x) :=
+  good_frame_iff.mp (good_walkList (hP.good x) t) s s' h
+
+theorem walk1_frame {P : Prims} (hP : P.Frame) (d : Desc) (s s' : St) (x : Bits)
+    (h : walk1 P d s = .ok s') : walk1 P d (s.app x) = .ok (s'.app x) :=
+  good_frame_iff.mp (good_walk1 (hP.good x) d) s s' h
+
+theorem iterN_frame {f : St → CM St} (hf : ∀ s s' x, f s = .ok s' → f (s.app x) = .ok (s'.app x))
+    (n : Nat) (s s' : St) (x : Bits) (h : iterN n f s = .ok s') : iterN n f (s.app x) = .ok (s'.app x) :=
+  good_frame_iff.mp (Good.iterN (good_frame_iff.mpr fun s s' => hf s s' x) n) s s' h
+
+/-- the walk reads a prefix `c` of the bits, hands on whatever follows `c` untouched, does the same
+    on ANY continuation of `c`, and fails with `BitReadError` on every proper prefix of `c` -/
+theorem walkList_trunc {P : Prims} (hP : P.Good truncShape) (t : List Desc) (s s' : St)
+    (h : walkList P t s = .ok s') :
+    ∃ c, s.bits = c ++ s'.bits ∧ (∀ y, walkList P t (s.setBits (c ++ y)) = .ok (s'.setBits y)) ∧
+      ∀ q, PPrefix q c → walkList P t (s.setBits q) = .error .bitRead :=
+  good_walkList hP t s s' h
+
+/-- consumed length: a successful run never looks beyond what it consumed -/
+theorem walkList_consumed {P : Prims} (hP : P.Good truncShape) (t : List Desc) (s s' : St)
+    (h : walkList P t s = .ok s') :
+    ∃ c, s.bits = c ++ s'.bits ∧ walkList P t { s with bits := c } = .ok { s' with bits := [] } := by
+  obtain ⟨c, e, l, _⟩ := walkList_trunc hP t s s' h
+  refine ⟨c, e, ?_⟩
+  have := l []
+  rw [List.append_nil] at this
+  exact this
+
+/-! ### the decoder's primitives -/
+
+/-- read with `r`, continue with `k` -/
+def klR {α : Type} (r : R α) (k : α → St → CM St) : St → CM St := fun s =>
+  match s.read r with
+  | .error e => .error e
+  | .ok (a, s1) => k a s1
+
+theorem St.read_setBits {α : Type} (s : St) (r : R α) (b : Bits) :
+    (s.setBits b).read r = match r b with
+      | .error e => .error e
+      | .ok (a, rest) => .ok (a, s.setBits rest) := rfl
+
+theorem Good.klR {α : Type} {r : R α} {k : α → St → CM St} (hr : R.Trunc r)
+    (hk : ∀ a, Good truncShape (k a)) : Good truncShape (klR r k) := by
+  intro s s' e
+  simp only [Bufr.klR, St.read] at e
+  cases h1 : r s.bits with
+  | error err => rw [h1] at e; cases e
+  | ok p =>
+    obtain ⟨a, rest⟩ := p
+    rw [h1] at e; simp only at e
+    obtain ⟨c1, e1, l1, t1⟩ := hr s.bits a rest h1
+    have h2 := hk a _ s' e
+    have h1' : truncShape.Φ s.bits rest (fun b' r1 => Bufr.klR r k (s.setBits b') =
+        match r1 with
+        | .error err => .error err
+        | .ok m => k a (s.setBits m)) := by
+      refine ⟨c1, e1, fun y => ?_, fun q hq => ?_⟩
+      · simp only [Bufr.klR, St.read_setBits, l1 y]
+      · simp only [Bufr.klR, St.read_setBits, t1 q hq]
+    refine truncShape.mono ?_ (truncShape.comp h1' h2)
+    rintro b' r2 ⟨r1, k1, k2⟩
+    rw [k1]
+    cases r1 with
+    | error err => simp only at k2; subst k2; rfl
+    | ok m => exact k2
+
+theorem good_decConstant {Sh : Shape} (dd : DDesc) (v : Int) : Good Sh (decConstant dd v) :=
+  Good.pure (h := fun s => (s.pushDesc dd).pushAll (.int v)) (fun _ _ => rfl)
+
+theorem good_decNumericU (dd : DDesc) (nbits scale ref : Int) : Good truncShape (decNumericU dd nbits scale ref) := by
+  cases hn : natWidth nbits with
+  | error err => exact Good.congr (fun s => by simp only [decNumericU, hn, bind, Except.bind]) (Good.error err)
+  | ok n =>
+    refine Good.congr (G := kl (fun s => .ok (s.pushDesc dd))
+      (klR (readUIntOrNone n) (fun v s => .ok (s.pushAll (numVal v scale ref))))) (fun s => ?_)
+      (Good.kl (Good.pure (fun _ _ => rfl)) (Good.klR (readUIntOrNone_trunc n) (fun v => Good.pure (fun _ _ => rfl))))
+    simp only [decNumericU, hn, kl, klR, bind, Except.bind, pure, Except.pure]
+    match_eq
+
+theorem good_decStringU (dd : DDesc) (nbytes : Nat) : Good truncShape (decStringU dd nbytes) := by
+  refine Good.congr (G := kl (fun s => .ok (s.pushDesc dd))
+    (klR (readBytes nbytes) (fun v s => .ok (s.pushAll (.bytes v))))) (fun s => ?_)
+    (Good.kl (Good.pure (fun _ _ => rfl)) (Good.klR (readBytes_trunc nbytes) (fun v => Good.pure (fun _ _ => rfl))))
+  simp only [decStringU, kl, klR, bind, Except.bind, pure, Except.pure]
+  match_eq
+
+theorem good_decCodeflagU (dd : DDesc) (nbits : Nat) : Good truncShape (decCodeflagU dd nbits) := by
+  refine Good.congr (G := kl (fun s => .ok (s.pushDesc dd))
+    (klR (readUIntOrNone nbits) (fun v s => .ok (s.pushAll (uintVal v))))) (fun s => ?_)
+    (Good.kl (Good.pure (fun _ _ => rfl)) (Good.klR (readUIntOrNone_trunc nbits) (fun v => Good.pure (fun _ _ => rfl))))
+  simp only [decCodeflagU, kl, klR, bind, Except.bind, pure, Except.pure]
+  match_eq
+
+theorem good_decNewRefvalU (e : Elem) (nbits : Nat) : Good truncShape (decNewRefvalU e nbits) := by
+  refine Good.congr (G := kl (fun s => .ok (s.pushDesc (.plain e)))
+    (klR (readInt nbits) (fun v s => .ok ((setNewRefval s e.id v).pushAll (.int v))))) (fun s => ?_)
+    (Good.kl (Good.pure (fun _ _ => rfl)) (Good.klR (readInt_trunc nbits) (fun v => Good.pure (fun _ _ => rfl))))
+  simp only [decNewRefvalU, kl, klR, bind, Except.bind, pure, Except.pure]
+  match_eq
+
+theorem decPrimsU_trunc : decPrimsU.Good truncShape where
+  numeric := good_decNumericU
+  string := good_decStringU
+  codeflag := good_decCodeflagU
+  newRefval := good_decNewRefvalU
+  constant := good_decConstant
+  factorValue := GoodV.obl (fun _ _ => rfl)
+  lastValues _ := GoodV.obl (fun _ _ => rfl)
+
+theorem good_decNumericC (dd : DDesc) (nbits scale ref : Int) : Good truncShape (decNumericC dd nbits scale ref) := by
+  cases hn : natWidth nbits with
+  | error err => exact Good.congr (fun s => by simp only [decNumericC, hn, bind, Except.bind]) (Good.error err)
+  | ok n =>
+    refine Good.local fun s => ⟨kl (fun s => .ok (s.pushDesc dd))
+      (klR (readColumn n s.vals.length) (fun col s => .ok (s.pushCol (col.map fun v => numVal v scale ref)))),
+      Good.kl (Good.pure (fun _ _ => rfl)) (Good.klR (readColumn_trunc _ _) (fun v => Good.pure (fun _ _ => rfl))),
+      fun b => ?_⟩
+    simp only [decNumericC, hn, kl, klR, bind, Except.bind, pure, Except.pure, St.setBits_vals]
+    match_eq
+
+theorem good_decCodeflagC (dd : DDesc) (nbits : Nat) : Good truncShape (decCodeflagC dd nbits) := by
+  refine Good.local fun s => ⟨kl (fun s => .ok (s.pushDesc dd))
+    (klR (readColumn nbits s.vals.length) (fun col s => .ok (s.pushCol (col.map (codeflagVal nbits))))),
+    Good.kl (Good.pure (fun _ _ => rfl)) (Good.klR (readColumn_trunc _ _) (fun v => Good.pure (fun _ _ => rfl))),
+    fun b => ?_⟩
+  simp only [decCodeflagC, kl, klR, bind, Except.bind, pure, Except.pure, St.setBits_vals]
+  match_eq
+
+theorem good_decStringC (dd : DDesc) (nbytes : Nat) : Good truncShape (decStringC dd nbytes) := by
+  refine Good.local fun s => ⟨kl (fun s => .ok (s.pushDesc dd))
+    (klR (readStringColumn nbytes s.vals.length) (fun col s => .ok (s.pushCol (col.map Val.bytes)))),
+    Good.kl (Good.pure (fun _ _ => rfl)) (Good.klR (readStringColumn_trunc _ _) (fun v => Good.pure (fun _ _ => rfl))),
+    fun b => ?_⟩
+  simp only [decStringC, kl, klR, bind, Except.bind, pure, Except.pure, St.setBits_vals]
+  match_eq
+
+theorem good_decNewRefvalC (e : Elem) (nbits : Nat) : Good truncShape (decNewRefvalC e nbits) := by
+  refine Good.congr (G := kl (fun s => .ok (s.pushDesc (.plain e)))
+    (klR (readInt nbits) (fun v => klR (readUInt 6) (fun nd s =>
+      if nd ≠ 0 then .error .other else .ok (setNewRefval (s.pushAll (.int v)) e.id v))))) (fun s => ?_)
+    (Good.kl (Good.pure (fun _ _ => rfl)) (Good.klR (readInt_trunc nbits) (fun v =>
+      Good.klR (readUInt_trunc 6) (fun nd => Good.ite_const (fun _ => Good.error _) (fun _ => Good.pure (fun _ _ => rfl))))))
+  simp only [decNewRefvalC, kl, klR, bind, Except.bind, pure, Except.pure]
+  match_eq
+
+theorem decPrimsC_trunc : decPrimsC.Good truncShape where
+  numeric := good_decNumericC
+  string := good_decStringC
+  codeflag := good_decCodeflagC
+  newRefval := good_decNewRefvalC
+  constant := good_decConstant
+  factorValue := GoodV.obl (fun _ _ => rfl)
+  lastValues _ := GoodV.obl (fun _ _ => rfl)
+
+theorem Prims.Good.to_frame {P : Prims} (h : ∀ x, P.Good (frameShape x))
+    (hf : ∀ s x, P.factorValue (s.app x) = P.factorValue s)
+    (hl : ∀ n s x, P.lastValues n (s.app x) = P.lastValues n s) : P.Frame where
+  numeric dd a b c s s' x := good_frame_iff.mp ((h x).numeric dd a b c) s s'
+  string dd n s s' x := good_frame_iff.mp ((h x).string dd n) s s'
+  codeflag dd n s s' x := good_frame_iff.mp ((h x).codeflag dd n) s s'
+  newRefval e n s s' x := good_frame_iff.mp ((h x).newRefval e n) s s'
+  constant dd v s s' x := good_frame_iff.mp ((h x).constant dd v) s s'
+  factorValue := hf
+  lastValues := hl
+
+theorem decPrimsU_frame : decPrimsU.Frame :=
+  Prims.Good.to_frame (fun x => decPrimsU_trunc.frame_of_trunc x) (fun _ _ => rfl) (fun _ _ _ => rfl)
+
+theorem decPrimsC_frame : decPrimsC.Frame :=
+  Prims.Good.to_frame (fun x => decPrimsC_trunc.frame_of_trunc x) (fun _ _ => rfl) (fun _ _ _ => rfl)
+
 end Bufr
